@@ -8,11 +8,16 @@
     endpoint's `parse_body` as the very same frame object (with C02_header_roundtrip for the nine header bytes,
     C23_roundtrip for PRIORITY and C25_settings_roundtrip for SETTINGS): what reaches the peer's frame handlers is what
     the sender's call built;
-  * the two stream state machines fit together (`H2.PairFsm.fsm_sync`, `fsm_open`, `fsm_cross`, `closed_quiet`,
-    `reset_swallows`; decided over the table regenerated from stream.py): what one side's machine lets the application
-    send, the other side's machine accepts and the two views stay mirror images — with nothing else in flight, and with
-    one frame from each side crossing — the single exception being D17b (`fsm_sync_D17b_witness`); a closed stream
-    sends nothing and swallows what arrives;
+  * the two stream state machines fit together, for every schedule (`H2.PairFsm.full_never_refused`): two copies of the
+    stream state machine regenerated from stream.py, connected by two FIFO queues of unbounded length; each side sends,
+    at any time, any frame its own machine accepts (except D17b's DATA / END_STREAM before response headers,
+    `fsm_sync_D17b_witness`), deliveries happen at any time; then in every reachable configuration every delivery is
+    accepted by the receiving machine, or dealt with quietly by a stream that side has closed meanwhile — never a
+    connection error, never a stream error on a live stream.  (Method: the frames that change a stream's state give a
+    finite reachable set, which the kernel searches and checks closed, `reduced_never_refused`; the other five kinds
+    change nothing, `neutral_kinds`, and are accepted where they arrive, by an invariant over the queues.)  The
+    one-frame statements `fsm_sync`, `fsm_open`, `fsm_cross`, `closed_quiet`, `reset_swallows` say more about the
+    states (mirror images);
   * header blocks (`H2.Pair.emitted_block_is_accepted`): a block that passed the sender's normalisation and
     validation satisfies the receiver's rule book for the same block type;
   * chunking (`C21_chunks`, `C21_chunks_out`): how the bytes of one direction are cut into `receive_data` calls changes
@@ -22,8 +27,8 @@
     (`C04_empty_frame_fits`, D43) and HEADERS for a reset stream already cleaned out of the table with the
     concurrency limit reached (`C20_forgotten_headers`, `C10_closed_stream_not_counted`, D48).
 
-  What is NOT proved (hence level `partial`): the joint invariant of the two endpoints with ARBITRARILY MANY frames in
-  flight (the sender's view of a stream and of the windows versus the receiver's) from which "the receiver's handler
+  What is NOT proved (hence level `partial`): the same for the whole connection — the joint invariant of the two
+  endpoints' windows, settings, stream tables and header validation with the frames in flight — from which "the receiver's handler
   accepts the frame and reports exactly the sender's call" would follow for every schedule.  That part is decided by
   the correspondence check and `oracle_C01` on pair histories: random programs (any call in any state) and the
   conversation generator (`harness/conversation.py`: only calls the application may make, every delivery and every
@@ -32,6 +37,7 @@
 import H2.Proofs.WireRoundTrip
 import H2.Proofs.PairHeaders
 import H2.Proofs.PairFsm
+import H2.Proofs.PairReachMain
 import H2.Props.C02
 import H2.Props.C04
 import H2.Props.C10
@@ -47,6 +53,10 @@ import H2.Props.C29
 -- @also H2.PairFsm.closed_quiet
 -- @also H2.PairFsm.reset_swallows
 -- @also H2.PairFsm.fsm_sync_D17b_witness
+-- @also H2.PairFsm.reduced_never_refused
+-- @also H2.PairFsm.neutral_kinds
+-- @also H2.PairFsm.full_never_refused
+-- @also H2.PairFsm.full_delivery_fine
 -- @also H2.C02.C02_header_roundtrip
 -- @also H2.C23.C23_roundtrip
 -- @also H2.C25.C25_settings_roundtrip
